@@ -42,7 +42,7 @@ theorem Post.exit_congr {K : SCtx} {k : Ctx} {sub : Bool} {le q : Prop} {s0 s s'
     (h : Post K k sub le q s0 s .exit e) (hx : SameX s s') : Post K k sub le q s0 s' .exit e := by
   obtain ⟨h1, h2, h3, h4, h5, h6, h7, h8, h9⟩ := h
   refine ⟨by rw [hx.ex]; exact h1, by rw [hx.ex]; exact h2, by rw [hx.ex]; exact h3,
-    by rw [hx.out]; exact h4, by rw [hx.cex]; exact h5, fun hs => by rw [hx.cex]; exact h6 hs,
+    by rw [hx.out]; exact h4, by rw [hx.cex]; exact h5, ⟨fun hs => by rw [hx.cex]; exact h6.1 hs, by rw [hx.cex]; exact h6.2⟩,
     by rw [hx.ht]; exact h7, by rw [hx.cer]; exact h8, ?_⟩
   exact ⟨by rw [hx.bk]; exact h9.1, by rw [hx.ct]; exact h9.2⟩
 
